@@ -20,6 +20,10 @@ impl<'a, F: Family> Cx<'a, F> {
         let owners = self.owners(ai);
         if granted {
             probes::hit(if self.par { P_UNIQ_GRANTED_PAR } else { P_UNIQ_GRANTED });
+            // from here on the holder may write the payload bytes: must be ordered after every
+            // other thread's reads and counter operations on this allocation
+            let block = self.env.m(|m| m.allocs[ai].block);
+            triomphe_verif_rt::sim::access(triomphe_verif_rt::sim::Space::Block, block, triomphe_verif_rt::sim::Access::Write);
             if owners != 1 {
                 violation(
                     "verdict:granted-while-shared",
@@ -465,10 +469,10 @@ pub fn uniq<F: Family>(cx: &mut Cx<'_, F>, op: &Op) -> Outcome {
         }
         // ------------------------------------------------------------------ deprecated writers
         OpCode::DepWrite | OpCode::DepAsMutSlice => {
-            if cx.par {
-                return Skipped;
-            }
             let owners = cx.owners(ai);
+            if cx.par {
+                probes::hit(P_DEP_WRITE_PAR);
+            }
             match (op.code, k) {
                 (OpCode::DepWrite, Kind::MuP) => {
                     if !F::P::can_make(1) {
@@ -500,7 +504,7 @@ pub fn uniq<F: Family>(cx: &mut Cx<'_, F>, op: &Op) -> Outcome {
                         Err(p) => {
                             drop(p);
                             probes::hit(P_DEP_WRITE_PANIC);
-                            if owners == 1 {
+                            if owners == 1 && !cx.par {
                                 violation("verdict:declined-while-unique", format!("`{}` panicked although this handle is the only owner", what));
                             }
                             // the value passed in is destroyed by the unwinding
@@ -550,7 +554,7 @@ pub fn uniq<F: Family>(cx: &mut Cx<'_, F>, op: &Op) -> Outcome {
                         Err(p) => {
                             drop(p);
                             probes::hit(P_DEP_WRITE_PANIC);
-                            if owners == 1 {
+                            if owners == 1 && !cx.par {
                                 violation("verdict:declined-while-unique", format!("`{}` panicked although this handle is the only owner", what));
                             }
                         }
